@@ -28,7 +28,7 @@ def ui_events(ctx, res, frames=True, world=None):
     sessions = g.json_lines("GEN")
     if len(sessions) < 30:
         raise vlib.Inconclusive("key-sequence generator produced %d sessions" % len(sessions))
-    evs, rc, txt = run_harness(ctx, "ui", "TestVerifKeys", {"sessions": PINNED + sessions, "wild": 35 if q else 350, "frames": frames},
+    evs, rc, txt = run_harness(ctx, "ui", "TestVerifKeys", {"sessions": PINNED + sessions, "wild": 35 if q else 350, "frames": frames, "frame_every": 1 if q else 5},
                                timeout=3000, allow_fail=True, env={"VERIF_WORLD": world}, name="keys-" + world)
     if rc != 0:
         resets = [e for e in evs if e["ev"] == "reset"]
